@@ -1,5 +1,6 @@
 """C06 Hypersingular and Maxwell operators equal their single-layer decompositions."""
 from props import _assemblyb as ab
+from translators import tables
 
 ID = "C06"
 PROP_FILE = "props/C06.v"
@@ -31,6 +32,7 @@ SRC = ["bempp_cl/core/numba_kernels.py", "bempp_cl/core/dense_assembler.py", "be
 def regen(ctx):
     for s in SRC:
         ctx.src(s)
+    ctx.translate(tables.duffy_regions)      # gen/DuffyRegions.v (tie T) for the swap-closure theorems
 
 
 def _model_expr(c):
